@@ -549,8 +549,8 @@ pub fn prop() -> Prop {
         ],
         subs: vec![
             Sub { name: "formulas-exhaustive", kind: Kind::Exhaustive(exhaustive) },
-            Sub { name: "random-formulas", kind: Kind::Random { f: random_formulas, quick: 16_000, thorough: 800_000, len: 300 } },
-            Sub { name: "random-scoping", kind: Kind::Random { f: random_scoping, quick: 16_000, thorough: 800_000, len: 200 } },
+            Sub { name: "random-formulas", kind: Kind::Random { f: random_formulas, quick: 80_000, thorough: 1_600_000, len: 300 } },
+            Sub { name: "random-scoping", kind: Kind::Random { f: random_scoping, quick: 80_000, thorough: 1_600_000, len: 200 } },
         ],
         direct: Some(direct),
         selftest: Some(crate::rfc::selftest),
